@@ -117,9 +117,9 @@ def _analyses():
             "list resets on strictly greater / appends on equal (A12.top), dependence by id equality, re-entry of the wrapper for lower levels, answer boxed with the arguments' trace (A13.unbox); the node constructors hand the answer and the arguments to the rule exactly as the wrapper passed them - still boxed for every enclosing trace (A2.slot: a rule evaluated on unboxed values detaches the inner derivative from all outer levels).",
         ),
         "C09": (
-            [a4.vspace, a4.match, a4.match_jvp, a4.modulus, a5_factor.agree, ka.operators, a4_dtype.dtype_comparisons, a4_parity.conj_parity],
+            [a4.vspace, a4.match, a4.match_jvp, a4.modulus, a5_factor.agree, ka.operators, a4_dtype.dtype_comparisons, a4_parity.conj_parity, a4_parity.holomorphic_factors],
             "Complex convention: ComplexArrayVSpace overrides (conjugating covector, real inner product, size 2n, two basis vectors per entry), kind plumbing of VJPs/JVPs for every "
-            "real/complex assignment (A4), conjugation placement in modulus-family rules (A4.modulus), conjugation parity of every rule in its (co)tangent (A4.parity: complex-linear in g except for conj itself), no real/complex decision by comparing a dtype with the Python type `complex` (A4.dtypecmp: true for complex128 only), VJP/JVP factor agreement (holomorphic ufuncs: no conjugate in either table), holomorphic_grad = grad(real o f).",
+            "real/complex assignment (A4), conjugation placement in modulus-family rules (A4.modulus), conjugation parity of every rule in its (co)tangent (A4.parity: complex-linear in g except for conj itself), no |.| / Re / Im / arg / conj of an argument inside the rule of a holomorphic function (A4.holo), no real/complex decision by comparing a dtype with the Python type `complex` (A4.dtypecmp: true for complex128 only), VJP/JVP factor agreement (holomorphic ufuncs: no conjugate in either table), holomorphic_grad = grad(real o f).",
         ),
         "C10": (
             [kc.ownership, kc.purity, kc.inplace_sites, kc.closure_reuse, kc.backward_pass, km.container_vspaces],
@@ -233,6 +233,9 @@ def _a9_scatter(ctx, world):
             ok_at, why = False, f"the accumulator returns `{str(b)[:50]}` instead of the buffer it scattered into (an item store / augmented assignment rebinds or buffers)"
         elif len(ats) != 1 or len(ats[0].args) != 3 or ats[0].kw:
             ok_at, why = False, "the accumulator does not scatter with exactly one numpy.add.at(A, idx, x)"
+        elif any(y is ats[0] for e in effs if e.op in ("when", "if") for y in walk(e)):
+            cnd = next(e for e in effs if e.op in ("when", "if") and any(y is ats[0] for y in walk(e)))
+            ok_at, why = False, f"the scatter runs only under a condition (`{str(cnd.cond)[:60]}`): every contribution has to be added, whatever the index selects"
         else:
             a0, a1, a2 = ats[0].args
             if a0 is not A or a2 is not x:
@@ -379,7 +382,19 @@ def _flatten_order(ctx, world):
     m, fn = world.repo.find_def("autograd.misc.flatten", "_flatten")
     bad = None
     good = 0
-    for x in ast.walk(fn):
+    # _flatten and the same-module helpers it calls (the dict branch may live in a helper)
+    scope_fns, todo = [], [fn]
+    while todo:
+        f_ = todo.pop()
+        if any(f_ is g_ for g_ in scope_fns) or len(scope_fns) > 8:
+            continue
+        scope_fns.append(f_)
+        for c_ in ast.walk(f_):
+            if isinstance(c_, ast.Call) and isinstance(c_.func, ast.Name):
+                rr = world.repo.resolve(m, c_.func.id)
+                if rr is not None and rr.kind == "repo" and rr.okind == "def" and rr.mod is m and isinstance(rr.node, ast.FunctionDef):
+                    todo.append(rr.node)
+    for x in (y for f_ in scope_fns for y in ast.walk(f_)):
         if isinstance(x, (ast.GeneratorExp, ast.ListComp, ast.For)):
             its = [g.iter for g in x.generators] if not isinstance(x, ast.For) else [x.iter]
             for it in its:
